@@ -138,6 +138,7 @@ def finish(ctx: Ctx, t0: float, level: str, explanation: str, evidence_dir: str 
         "rule": "one evaluation = one rule instance (rule id + construct key) examined on this run's parse of /repo; "
                 "non-trivial = the instance carried extracted facts to check; distinct = distinct (rule,key)",
         "samples": samples[:40],
+        "instances": [[o.rule, o.key, o.status] for o in ctx.obligations][:600],
         "explanation": explanation,
         "rules": sorted({o.rule for o in ctx.obligations}),
         "per_rule_counts": {r: sum(1 for o in ctx.obligations if o.rule == r) for r in sorted({o.rule for o in ctx.obligations})},
